@@ -667,6 +667,248 @@ def replay_e4(prop, path):
     return 0
 
 
+# ----------------------------------------------------------------------------------------- E3 grammar engine (C07, C17)
+def e3_types(run, tier):
+    """table facts of a seeded sample of element types (thorough: many more), with enumeration focus and versions"""
+    import json2tla
+    tj = os.path.join(run, "types.json")
+    count = 300 if tier == "quick" else 2500
+    sh([VH, "types", "--count", str(count), "--seed", str(seed()), "--out", tj], timeout=1800)
+    d = json.load(open(tj))
+    nver = 3 if tier == "quick" else 6
+    types = {}
+    for k, v in d["types"].items():
+        kids = v["children"]
+        if not kids or not v["pathmask"]:
+            continue
+        # focus: children in nested groups, version-partial ones, duplicates by name, the first and the last ones (at most 7)
+        names = [c["name"] for c in kids]
+        score = []
+        for i, c in enumerate(kids):
+            s = 0
+            if len(c["idx"]) > 1: s += 4
+            if len(c["mask"]) < 21: s += 3
+            if names.count(c["name"]) > 1: s += 5
+            if c["mult"] == "Any": s += 1
+            if i < 2 or i >= len(kids) - 1: s += 2
+            score.append((-s, i))
+        focus = sorted(i + 1 for _, i in sorted(score)[:7])
+        pm = v["pathmask"]
+        vs = sorted(set([pm[0], pm[len(pm) // 2], pm[-1]] if nver == 3 else [pm[(len(pm) - 1) * j // (nver - 1)] for j in range(nver)]))
+        types[k] = {"mode": v["mode"], "children": [{"name": c["name"], "idx": c["idx"], "mask": c["mask"], "mult": c["mult"]} for c in kids],
+                    "pair": v["pair"], "focus": focus, "vers": vs, "pathmask": pm,
+                    "attrs": [{"name": a["name"], "mask": a["mask"], "items": a["items"]} for a in v["attrs"]], "cdenum": v["cdenum"]}
+    open(os.path.join(run, "TypesData.tla"), "w").write(json2tla.module("TypesData", "TypesDataDef", types))
+    return d, types
+
+
+def e3_run(tier):
+    key = tree_hash("E3|%s|%d" % (tier, seed()))
+    cache = os.path.join(WORK, "cache", "E3-%s.json" % key)
+    if os.path.exists(cache):
+        log("[E3] reusing engine run %s" % key)
+        return json.load(open(cache))
+    t0 = time.time()
+    build()
+    run = os.path.join(WORK, "E3-" + tier)
+    shutil.rmtree(run, ignore_errors=True)
+    shutil.copytree(os.path.join(ROOT, "spec", "grammar"), run)
+    res = {"tier": tier, "tool_errors": [], "mismatch": [], "cases": 0, "states": 0, "transitions": 0, "types": 0, "samples": [], "algodiff": 0,
+           "warn_kinds": {}, "unbuildable": 0}
+    d, types = e3_types(run, tier)
+    res["types"] = len(types)
+    res["total_types"] = d["total_types"]
+    cfg = open(os.path.join(run, "grammar.cfg")).read().replace("MaxLen = 2", "MaxLen = %d" % (3 if tier == "quick" else 4))
+    open(os.path.join(run, "grammar.cfg"), "w").write(cfg)
+    inp = os.path.join(run, "cases.ndjson")
+    g = run_tlc(run, "GrammarMC.tla", "grammar.cfg", 16, 3000, heap="12g")
+    res["states"], res["transitions"] = g["distinct"], g["generated"]
+    if g["rc"] != 0 or g["distinct"] < 2:
+        res["tool_errors"].append("Grammar TLC rc=%s %s" % (g["rc"], g["errors"][:3]))
+    with open(inp, "w") as f:
+        for tl in g["tagged"]:
+            tag, rest = decode_tagged(tl)
+            if tag == "I":
+                f.write(rest[0] + "\n")
+            elif tag == "ALGODIFF":
+                res["algodiff"] += 1
+            elif tag == "INVALIDSTATE":
+                res["tool_errors"].append("Grammar: exploration reached a state that is not Valid: " + rest[0][:200])
+    out = os.path.join(run, "results.ndjson")
+    r = sh([VH, "grammar", "--types", os.path.join(run, "types.json"), "--in", inp, "--out", out], timeout=7200)
+    rs = json.loads(r.stdout.strip().splitlines()[-1])
+    res["unbuildable"] = rs["unbuildable"]
+    # dumb comparison of what the specification expects with what the library answered
+    cases = {}
+    for l in open(inp):
+        c = json.loads(l)
+        cases[(c["ty"], c["ver"], json.dumps(c["hist"]))] = c
+    ok_warn = {"RequiredAttributeMissing"}
+    for l in open(out):
+        o = json.loads(l)
+        c = cases.get((o["ty"], o["ver"], json.dumps(o["hist"])))
+        if c is None:
+            continue
+        if not o.get("built") and o.get("why") == "path":
+            continue
+        res["cases"] += 1
+        probs = []
+        if not o["built"]:
+            probs.append({"what": "a creation at a position the specification allows was refused", "why": o["why"]})
+        else:
+            avail = set()
+            for e in c["exp"]:
+                nm = e["name"]
+                if e.get("avail", True):
+                    avail.add(nm)
+                ob = o["obs"].get(nm)
+                if ob is None:
+                    continue
+                exp_set = e["set"]
+                if sorted(ob["ok"]) != sorted(exp_set):
+                    probs.append({"what": "positions accepting a creation differ", "child": nm, "expected": exp_set, "accepted": ob["ok"]})
+                exp_range = [min(exp_set), max(exp_set)] if exp_set else None
+                got_range = ob["range"] if isinstance(ob["range"], list) else None
+                if exp_range != got_range:
+                    probs.append({"what": "reported insertion range differs", "child": nm, "expected": exp_range, "reported": ob["range"]})
+            listed = {x[0]: x[1] for x in o["listed"]}
+            if set(listed) != avail:
+                probs.append({"what": "listed sub elements differ from those available in the version", "extra": sorted(set(listed) - avail), "missing": sorted(avail - set(listed))})
+            for e in c["exp"]:
+                if e["name"] in listed and listed[e["name"]] != bool(e["set"]):
+                    probs.append({"what": "allowed flag differs", "child": e["name"], "expected": bool(e["set"]), "reported": listed[e["name"]]})
+            for wk in o["warn"]:
+                res["warn_kinds"][wk] = res["warn_kinds"].get(wk, 0) + 1
+                if wk not in ok_warn:
+                    probs.append({"what": "lenient reload of the built file complains", "warning": wk})
+        if probs:
+            res["mismatch"].append({"ty": o["ty"], "ver": o["ver"], "hist": o["hist"], "names": c["names"], "problems": probs[:4]})
+        if len(res["samples"]) < 5 and res["cases"] % 997 == 1:
+            res["samples"].append({"type": o["ty"], "version_bit": o["ver"], "children": c["names"], "expected": {e["name"]: e["set"] for e in c["exp"][:4]}})
+    res["wall"] = time.time() - t0
+    os.makedirs(os.path.dirname(cache), exist_ok=True)
+    json.dump(res, open(cache, "w"))
+    return res
+
+
+def check_c17(tier):
+    t0 = time.time()
+    build()
+    run = os.path.join(WORK, "E3c-" + tier)
+    shutil.rmtree(run, ignore_errors=True)
+    shutil.copytree(os.path.join(ROOT, "spec", "grammar"), run)
+    tool_errors = []
+    d, types = e3_types(run, tier)
+    def cfg(mode):
+        name = "compat_%s.cfg" % mode
+        open(os.path.join(run, name), "w").write("SPECIFICATION Spec\nCHECK_DEADLOCK FALSE\nCONSTANTS\n  Mode = \"%s\"\n  SourcesPerItem = %d\n" % (mode, 1 if tier == "quick" else 2))
+        return name
+    inp = os.path.join(run, "ccases.ndjson")
+    g = tlc_lines(run, "VersionCompat.tla", cfg("gen"), "I", inp, workers=8)
+    if g["rc"] != 0 or g["n"] == 0:
+        tool_errors.append("VersionCompat gen rc=%s n=%s %s" % (g["rc"], g["n"], g["errors"][:2]))
+    out = os.path.join(run, "cres.ndjson")
+    r = sh([VH, "compat", "--types", os.path.join(run, "types.json"), "--in", inp, "--out", out], timeout=7200)
+    rs = json.loads(r.stdout.strip().splitlines()[-1])
+    j = run_tlc(run, "VersionCompat.tla", cfg("judge"), 1, 3600, env={"RESULTS": out}, tag="_judge", heap="12g")
+    if j["rc"] != 0:
+        tool_errors.append("VersionCompat judge rc=%s %s" % (j["rc"], j["errors"][:2]))
+    verdicts = [json.loads(decode_tagged(l)[1][0]) for l in j["tagged"] if l.startswith('<<"V"')]
+    tableview = sum(1 for l in j["tagged"] if l.startswith('<<"TABLEVIEW"'))
+    pre = sum(1 for l in open(out) if '"srcok":true' in l)
+    kf = known_findings().get("findings", [])
+    viol = 0
+    known = {}
+    for v in verdicts:
+        rr = v["r"]
+        hit = [f for f in kf if f.get("engine") == "E3c" and f.get("pred") == v["pred"] and f.get("kind", rr["kind"]) == rr["kind"]]
+        if hit:
+            known[hit[0]["id"]] = hit[0]
+            continue
+        viol += 1
+        if viol <= 20:
+            dd = os.path.join(WORK, "replays")
+            os.makedirs(dd, exist_ok=True)
+            path = os.path.join(dd, "C17-%d.json" % viol)
+            json.dump(dict(rr, property="C17", predicate=v["pred"], engine="E3c"), open(path, "w"))
+            print("VIOLATION property=C17 replay=%s" % path)
+            log("   %s: type %s %s %s, version bit %s -> %s: errors=%s mask_has=%s relabelled_loads=%s set_version=%s" % (v["pred"], rr["ty"], rr["kind"], rr["item"], rr["sver"], rr["tver"], rr["nerr"], rr["maskhas"], rr["relabel_ok"], rr["setver_ok"]))
+    for fid, f in known.items():
+        print("KNOWN-FINDING: property=C17 %s" % f["what"])
+    samples = []
+    with open(out) as f:
+        for i, l in enumerate(f):
+            if i in (0, 300, 3000):
+                samples.append(json.loads(l))
+    ev = {"property_id": "C17", "tier": tier, "seed": seed(), "level": "model_checking",
+          "coverage": {"states": max(1, g["distinct"]), "transitions": max(1, g["generated"]), "traces_validated_against_impl": rs["records"],
+                       "samples": samples or ["none"], "items": rs["cases"], "unbuildable_items": rs["unbuildable"], "records_with_precondition": pre,
+                       "loader_vs_table_semantics_disagreements": tableview, "element_types": len(types),
+                       "explanation": "TLC enumerates every version-dependent child / attribute / enumeration value of the sampled element types from the table data and the source versions; the harness embeds each in a minimal document and, for all 21 target versions, records the compatibility check, the strict load of the relabelled text and set_version; TLC judges CompatExact and SetVersionExact on every record"},
+          "assumptions": ["minimal documents are built through the editing API (E3 / C07 cover its validity)", "relabelling = replacing the schema file name in the serialized text", "TLC"],
+          "wall_s": round(time.time() - t0, 2), "violations": viol}
+    os.makedirs(EVID, exist_ok=True)
+    json.dump(ev, open(os.path.join(EVID, "C17.json"), "w"), indent=1)
+    if pre < 10:
+        tool_errors.append("vacuous: only %d records satisfy the precondition" % pre)
+    if tool_errors:
+        log("TOOL ERRORS: " + "; ".join(tool_errors[:5]))
+        return 1 if viol else 2
+    return 1 if viol else 0
+
+
+def check_c07(tier):
+    t0 = time.time()
+    res = e3_run(tier)
+    kf = known_findings().get("findings", [])
+    viol = 0
+    known = {}
+    for m in res["mismatch"]:
+        hit = None
+        for f in kf:
+            if f.get("engine") == "E3" and all(any(f.get("what_contains", "") in p["what"] and f.get("child", p.get("child")) == p.get("child") for _ in [0]) for p in m["problems"]):
+                hit = f
+        if hit:
+            known[hit["id"]] = hit
+            continue
+        viol += 1
+        if viol <= 20:
+            d = os.path.join(WORK, "replays")
+            os.makedirs(d, exist_ok=True)
+            path = os.path.join(d, "C07-%d.json" % viol)
+            json.dump(dict(m, property="C07", engine="E3"), open(path, "w"))
+            print("VIOLATION property=C07 replay=%s" % path)
+            log("   type %s version bit %s children %s: %s" % (m["ty"], m["ver"], m["names"], json.dumps(m["problems"][0])[:220]))
+    # part (b) on arbitrary editing histories: the core engine's EditsStayValid verdicts
+    e1 = e1_run(tier)
+    for v in e1["verdicts"]:
+        if v["kind"] in ("state", "action") and v["prop"] == "C07":
+            hit = [f for f in kf if f["id"] in v.get("kf", [])]
+            if hit:
+                known[hit[0]["id"]] = hit[0]
+                continue
+            viol += 1
+            if viol <= 25:
+                print("VIOLATION property=C07 replay=%s" % write_replay("C07", 100 + viol, v))
+                log("   predicate %s fails at op %s %s" % (v["pred"], v["op"], json.dumps(v.get("a"))[:200]))
+    res["tool_errors"] = res["tool_errors"] + e1["tool_errors"]
+    for fid, f in known.items():
+        print("KNOWN-FINDING: property=C07 %s" % f["what"])
+    ev = {"property_id": "C07", "tier": tier, "seed": seed(), "level": "model_checking",
+          "coverage": {"states": max(1, res["states"]), "transitions": max(1, res["transitions"]), "traces_validated_against_impl": res["cases"],
+                       "samples": res["samples"] or ["none"], "element_types": res["types"], "of_total_types": res.get("total_types", 0),
+                       "model_level_algorithm_differences": res["algodiff"], "core_engine_histories_with_reload": e1.get("driver_histories", 0), "core_engine_steps_judged": e1["validated_steps"], "reload_warning_kinds": res["warn_kinds"], "unbuildable_cases": res["unbuildable"],
+                       "explanation": "TLC explores (element type, version, child sequence) states of spec/grammar/Grammar.tla built from the tables of the current tree, checks the transcribed range algorithm against the declarative InsertPositions on the model, and emits for every state the expected position set of every child; the harness builds each state on a real element and reports ranges, accepted positions, the allowed list and the warnings of a lenient reload"},
+          "assumptions": ["Grammar.tla's reading of the tables (sequence order by index vector, exclusive choice, multiplicity in sequence/choice containers)", "TLC"],
+          "wall_s": round(time.time() - t0, 2), "violations": viol}
+    os.makedirs(EVID, exist_ok=True)
+    json.dump(ev, open(os.path.join(EVID, "C07.json"), "w"), indent=1)
+    if res["tool_errors"]:
+        log("TOOL ERRORS: " + "; ".join(res["tool_errors"][:5]))
+        return 1 if viol else 2
+    return 1 if viol else 0
+
+
 # ----------------------------------------------------------------------------------------- E6 sort engine (C14)
 def check_c14(tier):
     t0 = time.time()
@@ -888,6 +1130,10 @@ def main(argv):
             return check_e4(prop, tier)
         if prop == "C14":
             return check_c14(tier)
+        if prop == "C07":
+            return check_c07(tier)
+        if prop == "C17":
+            return check_c17(tier)
         log("unknown property / not claimed: " + prop)
         return 2
     except ToolError as e:
